@@ -350,6 +350,22 @@ struct Gen
 			{
 				long nn = r.chance(0.85) ? r.irange(0, 170) : r.irange(171, 400);
 				long kk = r.irange(0, nn);
+				if(r.chance(0.2) && !p.ops.empty() && p.ops.back().kind == "binom")
+				{
+					// the previous request with one argument moved by a power of two (or n by one): arguments that collide in
+					// anything that packs, hashes or truncates them
+					nn = p.ops.back().i[0];
+					kk = p.ops.back().i[1];
+					long step = 1l << r.irange(0, 8);
+					if(r.chance(0.7))
+						kk += r.chance(0.5) ? step : -step;
+					else
+						nn += r.chance(0.5) ? 1 : -1;
+					if(r.chance(0.3))
+						nn += r.chance(0.5) ? 1 : -1;
+					nn = std::max(0l, std::min(400l, nn));
+					kk = std::max(0l, std::min(nn, kk));
+				}
 				if(r.chance(0.3))
 					kk = r.chance(0.5) ? r.irange(0, std::min(3l, nn)) : nn - r.irange(0, std::min(3l, nn));
 				if(nn > 170 && r.chance(0.5) && !p.ops.empty() && p.ops.back().kind == "binom")
@@ -373,7 +389,7 @@ struct Gen
 			p.ops[facts[r.below(facts.size())]].i[1] = 1;
 		if(!facts.empty())
 			p.ops[facts.back()].i[1] = 1;
-		for(int q = 0; q < 6 && !binoms.empty(); q++)
+		for(int q = 0; q < 12 && !binoms.empty(); q++)
 			p.ops[binoms[r.below(binoms.size())]].i[2] = 1;
 		return p;
 	}
